@@ -489,6 +489,8 @@ func (e *Engine) identImpls(prop string) ([]staticResult, []string) {
 	type want struct {
 		ifacePkg, iface string
 		methods         map[string][]string // method -> allowed underlying functions
+		alsoAny         [][2]string         // only types that also implement one of these interfaces (pkg, name)
+		optional        bool                // skipped when the package of the interface is not loaded
 	}
 	ir := modPath + "/ir"
 	md := modPath + "/ir/metadata"
@@ -497,16 +499,25 @@ func (e *Engine) identImpls(prop string) ([]staticResult, []string) {
 			"ID":        {"(" + ir + ".LocalIdent).ID", "(" + ir + ".GlobalIdent).ID"},
 			"SetID":     {"(*" + ir + ".LocalIdent).SetID", "(*" + ir + ".GlobalIdent).SetID"},
 			"IsUnnamed": {"(" + ir + ".LocalIdent).IsUnnamed", "(" + ir + ".GlobalIdent).IsUnnamed"},
-		}},
+		}, nil, false},
 		{md, "Definition", map[string][]string{
 			"ID":    {"(" + md + ".MetadataID).ID"},
 			"SetID": {"(*" + md + ".MetadataID).SetID"},
-		}},
+		}, nil, false},
+		// the instructions and terminators the parser indexes through asm.local (localIdentOfValue decodes Ident())
+		{modPath + "/asm", "local", map[string][]string{
+			"Ident":     {"(" + ir + ".LocalIdent).Ident"},
+			"ID":        {"(" + ir + ".LocalIdent).ID"},
+			"IsUnnamed": {"(" + ir + ".LocalIdent).IsUnnamed"},
+		}, [][2]string{{ir, "Instruction"}, {ir, "Terminator"}}, true},
 	}
 	var res []staticResult
 	var errs []string
 	for _, w := range wants {
 		pp := e.ppkgs[w.ifacePkg]
+		if pp == nil && w.optional {
+			continue
+		}
 		if pp == nil {
 			errs = append(errs, "ident-impls: package "+w.ifacePkg+" not loaded")
 			continue
@@ -538,7 +549,19 @@ func (e *Engine) identImpls(prop string) ([]staticResult, []string) {
 				}
 				for _, cand := range []types.Type{tn.Type(), types.NewPointer(tn.Type())} {
 					if types.Implements(cand, it) {
-						impls = append(impls, cand)
+						keep := len(w.alsoAny) == 0
+						for _, a := range w.alsoAny {
+							if ap := e.ppkgs[a[0]]; ap != nil && ap.Types != nil {
+								if o, ok := ap.Types.Scope().Lookup(a[1]).(*types.TypeName); ok {
+									if ai, ok := o.Type().Underlying().(*types.Interface); ok && types.Implements(cand, ai) {
+										keep = true
+									}
+								}
+							}
+						}
+						if keep {
+							impls = append(impls, cand)
+						}
 						break
 					}
 				}
@@ -1368,7 +1391,7 @@ func (e *Engine) keepsFrames(prop string) ([]staticResult, []string) {
 					fidx = k
 				}
 			}
-			if fidx < 0 || kind == "elems" {
+			if fidx < 0 {
 				r.Status, r.Detail = "fail", "unsupported designator "+g
 				res = append(res, r)
 				continue
@@ -1379,14 +1402,30 @@ func (e *Engine) keepsFrames(prop string) ([]staticResult, []string) {
 					for _, ins := range b.Instrs {
 						switch x := ins.(type) {
 						case *ssa.Store:
-							fa, ok := x.Addr.(*ssa.FieldAddr)
-							if kind != "field" || !ok || fa.Field != fidx {
-								continue
+							if fa, ok := x.Addr.(*ssa.FieldAddr); ok && kind == "field" && fa.Field == fidx {
+								if types.Identical(fa.X.Type().Underlying().(*types.Pointer).Elem(), stT) && !freshOrigin(fa.X, map[ssa.Value]bool{}) {
+									problems = append(problems, fmt.Sprintf("%s: %s stores to %s of a shared object", posOf(e, x.Pos()), fn.Name(), d))
+								}
 							}
-							if !types.Identical(fa.X.Type().Underlying().(*types.Pointer).Elem(), stT) || freshOrigin(fa.X, map[ssa.Value]bool{}) {
-								continue
+							// elems(T.F): a store to an element of a shared slice (or array) with that element type
+							if ia, ok := x.Addr.(*ssa.IndexAddr); ok && kind == "elems" {
+								sl, isSl := st.Field(fidx).Type().Underlying().(*types.Slice)
+								if !isSl {
+									continue
+								}
+								var et types.Type
+								switch u := ia.X.Type().Underlying().(type) {
+								case *types.Slice:
+									et = u.Elem()
+								case *types.Pointer:
+									if at, ok := u.Elem().Underlying().(*types.Array); ok {
+										et = at.Elem()
+									}
+								}
+								if et != nil && types.Identical(et, sl.Elem()) && !freshOrigin(ia.X, map[ssa.Value]bool{}) {
+									problems = append(problems, fmt.Sprintf("%s: %s stores to an element of a shared []%s", posOf(e, x.Pos()), fn.Name(), sl.Elem()))
+								}
 							}
-							problems = append(problems, fmt.Sprintf("%s: %s stores to %s of a shared object", posOf(e, x.Pos()), fn.Name(), d))
 						case *ssa.MapUpdate:
 							if kind != "map" || !types.Identical(x.Map.Type(), st.Field(fidx).Type()) || freshOrigin(x.Map, map[ssa.Value]bool{}) {
 								continue
